@@ -12,7 +12,7 @@ from ..errors import AnalysisError
 from ..model import ClassInfo, FuncInfo, dotted, src, walk_scope
 from ..report import Context
 from ..util import calls_in, dep_leaves, kwarg, reaching_events, returns_of
-from . import c16, c17
+from . import c15, c16, c17
 
 LEVEL_TEXT = (
     "Static analysis (no execution): a provenance typestate 'Grid' is computed for the value of every `return` of "
@@ -252,6 +252,8 @@ def run(ctx: Context) -> None:
     ctx.rule(r3_rows, base)
     # surrogates return the first batch_size rows of a pool of candidate_pool_size rows: the pool must not be thinned before the prefix is taken
     ctx.rule(c16.r2_surrogate)
+    # the grid itself stays inside the declared bounds up to the documented 1e-7 end-point tolerance (which C03 takes as given)
+    ctx.rule(grid_within_bounds)
 
 
 def r1_grid(ctx: Context, base: ClassInfo) -> None:
@@ -332,3 +334,17 @@ def _leaves_through_calls(prog, f: FuncInfo, e: ast.expr, depth: int) -> set[str
         return out
     # attribute state written by helpers that received batch_size does not count: only direct data flow
     return out
+
+
+def grid_within_bounds(ctx: Context) -> None:
+    before = len(ctx.findings)
+    n_obl = len(ctx.obligations)
+    c15.r3_grid(ctx)
+    # the absolute 1e-7 tolerance is part of C03's statement: only a larger / step-proportional overshoot is a C03 violation
+    keep = []
+    for f in ctx.findings[before:]:
+        if f.key.endswith("arange-stop-slack:absolute-constant"):
+            continue
+        keep.append(f)
+    ctx.findings[before:] = keep
+    ctx.obligations[n_obl:] = [o for o in ctx.obligations[n_obl:] if not (o["verdict"] == "violated" and o["key"].endswith("arange-stop-slack:absolute-constant"))]
